@@ -19,6 +19,7 @@ import (
 func TestMain(m *testing.M) {
 	vh.Rule("rapid: same (type,width,value) domain as C04; for each value the library's DataType.Bytes must equal the independent reference encoding byte for byte (numeric: same sign byte and same magnitude after stripping leading zero bytes) and DataType.GoValue of the reference encoding must give back the value (classic temporal types: to within the millisecond resolution of the decoded time); fixed vectors from the ASE documentation (type minima/maxima, epochs); exhaustive: every day of years 1..9999 for the calendar helpers DurationFromDateTime / TimeToMicroseconds / MicrosecondsToTime against own civil-date arithmetic (Hinnant), inverse and additivity. Non-trivial: the reference encoding is not all-zero bytes; distinct by (type,width,value)")
 	vh.Assume("the reference codec is my reading of TDS 5.0 (little endian as announced in the login record), anchored by documented vectors; smalldatetime values are exact minutes here (the rounding rule for seconds is not part of the layout)")
+	vh.Rule("also: batches of 2..8 values converted in goroutines at the same time (separate race-detector run)")
 	vh.Main(m, "C05")
 }
 
@@ -440,4 +441,48 @@ func TestSequencesOfConversions(t *testing.T) {
 		return c
 	}
 	vh.Check(t, "TestSequencesOfConversions", vh.N(20000, 400000), gen, runSeq)
+}
+
+// ---- several goroutines converting at the same time (rows of several connections are
+// decoded in parallel): nothing the conversions share may show in a result
+
+func TestConcurrentConversions(t *testing.T) {
+	gen := func(rt *rapid.T) []valCase {
+		n := rapid.IntRange(2, 8).Draw(rt, "goroutines")
+		var cs []valCase
+		tw := valgen.GenTW(rt)
+		oneType := rapid.Bool().Draw(rt, "onetype")
+		for i := 0; i < n; i++ {
+			if !oneType {
+				tw = valgen.GenTW(rt)
+			}
+			v := valgen.Gen(rt, tw)
+			if len(v.S) > 200 {
+				v = valgen.GenFor(rt, tw, v.Prec, v.Scal, 200)
+			}
+			if len(v.B) > 200 {
+				v.B = v.B[:200]
+			}
+			if v.T == rc.TShortDate || (v.T == rc.TDateTimeN && v.W == 4) {
+				v.JitNs = 0
+			}
+			cs = append(cs, valCase{V: v})
+		}
+		return cs
+	}
+	run := func(cs []valCase) *vh.Failure {
+		f := vh.Together(cs, func(c valCase) *vh.Failure {
+			for k := 0; k < 20; k++ {
+				if f := runVal(c); f != nil {
+					return f
+				}
+			}
+			return nil
+		})
+		if f == nil {
+			vh.Label("concurrent-conversions")
+		}
+		return f
+	}
+	vh.Check(t, "TestConcurrentConversions", vh.N(1500, 30000), gen, run)
 }
